@@ -10,11 +10,12 @@ head=$(git -C /repo rev-parse --short HEAD)
 dir=$(python3 -c "import json;print(json.load(open('$src/meta.json'))['demo_pkg_dir'])")
 demo=$(ls $src/*_test.go | head -1)
 run=$(python3 -c "import json,re;r=json.load(open('$src/meta.json'))['demo_run'];m=re.search(r'-run[ =]+(\S+)',r);print(m.group(1).strip('\'\"') if m else r)")
+RACE=$(python3 -c "import json;print('-race' if '-race' in json.load(open('$src/meta.json'))['demo_run'] else '')")
 cp $demo $wt/$dir/zz_demo_test.go
 set +e
-(cd $wt && go test -vet=off -count=1 -run "$run" ./$dir > /tmp/seedchk-$name.base 2>&1); base=$?
+(cd $wt && go test $RACE -vet=off -count=1 -run "$run" ./$dir > /tmp/seedchk-$name.base 2>&1); base=$?
 git -C $wt apply $src/patch.diff || { echo "PATCH DOES NOT APPLY"; git -C /repo worktree remove --force $wt; exit 1; }
-(cd $wt && go test -vet=off -count=1 -run "$run" ./$dir > /tmp/seedchk-$name.mut 2>&1); mut=$?
+(cd $wt && go test $RACE -vet=off -count=1 -run "$run" ./$dir > /tmp/seedchk-$name.mut 2>&1); mut=$?
 rm $wt/$dir/zz_demo_test.go
 (cd $wt && go build ./... && go test -vet=off -count=1 ./... > /tmp/seedchk-$name.suite 2>&1); suite=$?
 git -C /repo worktree remove --force $wt
@@ -34,6 +35,6 @@ json.dump(m,open('/verif/seeded/$name/meta.json','w'),indent=1)
 P
   echo KEPT /verif/seeded/$name
 else
-  echo REJECTED; tail -5 /tmp/seedchk-$name.base /tmp/seedchk-$name.mut /tmp/seedchk-$name.suite
+  echo REJECTED; tail -n 5 /tmp/seedchk-$name.base /tmp/seedchk-$name.mut /tmp/seedchk-$name.suite
 fi
 rm -f /tmp/seedchk-$name.*
